@@ -26,11 +26,12 @@ type Style struct {
 }
 
 type renderer struct {
-	st    Style
-	ncomm int
-	sb    strings.Builder
-	nl    string
-	ind   string
+	st     Style
+	ncomm  int
+	nblock int
+	sb     strings.Builder
+	nl     string
+	ind    string
 }
 
 func (r *renderer) on(enabled bool) bool {
@@ -98,6 +99,12 @@ func (r *renderer) node(n *Node, level int, comma bool) {
 		r.eol()
 		for i, p := range n.Props {
 			r.indent(level + 1)
+			if r.st.Comments {
+				r.nblock++
+				if r.nblock%5 == 3 && r.on(true) {
+					r.sb.WriteString("### k ### ")
+				}
+			}
 			p.Node.KeyPos = r.sb.Len()
 			if p.Shortcut {
 				r.sb.WriteString(p.Key)
@@ -150,6 +157,14 @@ func (r *renderer) tail(n *Node, comma bool, level int) {
 	if comma {
 		r.sb.WriteString(",")
 	}
+	// a block comment closed on the line it was opened on, schema text (the annotation, if any)
+	// follows on the same line
+	if r.st.Comments {
+		r.nblock++
+		if r.nblock%4 == 2 && r.on(true) {
+			r.sb.WriteString(" ### c ###")
+		}
+	}
 	r.annotation(n, level)
 }
 
@@ -176,12 +191,26 @@ func (r *renderer) eol() {
 }
 
 func (r *renderer) annotation(n *Node, level int) {
+	if n.Split > 0 && n.Split < len(n.Rules) {
+		// two annotations on one value: `/* {first rules} - note */ // {remaining rules}`
+		r.annotationForm(&Node{Rules: n.Rules[:n.Split], Note: n.Note, Dash: n.Dash}, level, 1)
+		r.annotationForm(&Node{Rules: n.Rules[n.Split:]}, level, 0)
+		return
+	}
+	r.annotationForm(n, level, -1)
+}
+
+// annotationForm writes one annotation; force >= 0 fixes the form (0 inline, 1 one-line /* */).
+func (r *renderer) annotationForm(n *Node, level int, force int) {
 	if len(n.Rules) == 0 && n.Note == "" {
 		return
 	}
 	ml := 0
 	if r.st.MultiLine != 0 && r.on(true) {
 		ml = r.st.MultiLine
+	}
+	if force >= 0 {
+		ml = force
 	}
 	sp := " "
 	if r.on(r.st.TightColon) {
